@@ -36,7 +36,13 @@ func sizedMessage(r *rand.Rand, kind string, size int, chunk string) protocol.Ch
 		return &protocol.ForwardMessage{Tag: "tag", Entries: es, Options: opts}
 	case "packed":
 		b := make([]byte, size)
-		r.Read(b)
+		if r != nil {
+			r.Read(b)
+		} else {
+			for i := range b {
+				b[i] = byte(i * 7)
+			}
+		}
 		return &protocol.PackedForwardMessage{Tag: "tag", EventStream: b, Options: opts}
 	case "raw":
 		m := &protocol.Message{Tag: "tag", Timestamp: 5, Record: map[string]interface{}{"k": pad}, Options: opts}
